@@ -301,8 +301,9 @@ func (s *SavedMetadata) UnmarshalJSON(data []byte) error {
 	var id interface{}
 	switch strings.ToUpper(x.TargetType) {
 	case strings.ToUpper(MetaTargetTypeAccount):
-		id = ""
-		err = json.Unmarshal(x.TargetID, &id)
+		var address string
+		err = json.Unmarshal(x.TargetID, &address)
+		id = address
 	case strings.ToUpper(MetaTargetTypeTransaction):
 		id, err = strconv.ParseUint(string(x.TargetID), 10, 64)
 	default:
@@ -353,8 +354,9 @@ func (s *DeletedMetadata) UnmarshalJSON(data []byte) error {
 	var id interface{}
 	switch strings.ToUpper(x.TargetType) {
 	case strings.ToUpper(MetaTargetTypeAccount):
-		id = ""
-		err = json.Unmarshal(x.TargetID, &id)
+		var address string
+		err = json.Unmarshal(x.TargetID, &address)
+		id = address
 	case strings.ToUpper(MetaTargetTypeTransaction):
 		id, err = strconv.ParseUint(string(x.TargetID), 10, 64)
 	default:
